@@ -80,7 +80,7 @@ func (e *Engine) invoke(st *State, fnv Value, args []Value, c *ssa.CallCommon, d
 	}
 	// unknown function value (client callback): unconstrained result
 	res := e.havoc(st, resultType(c.Signature()), "cb")
-	st.addTrace(TraceEv{Kind: "callback", Pos: pos, Args: args, Extra: res})
+	st.addTrace(TraceEv{Kind: "callback", Pos: pos, Args: args, Extra: res, Typ: resultType(c.Signature())})
 	if e.callbacksWriteDB {
 		// a client callback may itself use the API: the tables are arbitrary afterwards (snapshot kept for contracts)
 		e.havocDB(st, "aftercb")
